@@ -75,3 +75,7 @@ func VerifPoisonPools(on bool) {
 	encoder.VerifPoison = on
 	decoder.VerifPoison = on
 }
+
+// VerifPoolErrors returns and clears the violations of the slice decoder's pool invariant (a pooled
+// header never claims more elements than its working array has) seen since the last call.
+func VerifPoolErrors() []string { return decoder.VerifPoolErrors() }
